@@ -251,7 +251,7 @@ pub fn prop(tier: Tier, _seed: u64) -> Prop {
         }
         ctx.nontrivial += 65536;
         ctx.class(mix(mix(d[0] as u64, d[2] as u64), mix((w % 32) as u64, (d[3] * 64) as u64 + (off % 32) as u64)));
-    }));
+    }).isolated());
 
     // ---- (2) 16-bit pairs: one alpha per case x all 65536 colours (thorough: every alpha)
     let alphas: Vec<u32> = if tier == Tier::Thorough { (0..65536).collect() } else { boundary_set_16() };
@@ -288,7 +288,7 @@ pub fn prop(tier: Tier, _seed: u64) -> Prop {
         }
         ctx.nontrivial += 65536;
         ctx.class(mix(a.leading_zeros() as u64, idx % 2 + 7000));
-    }));
+    }).isolated());
 
     // ---- (2b) 16-bit: one colour per case x all 65536 alphas (boundary colours)
     let cols = boundary_set_16();
@@ -321,7 +321,7 @@ pub fn prop(tier: Tier, _seed: u64) -> Prop {
         }
         ctx.nontrivial += 65536;
         ctx.class(mix(col.leading_zeros() as u64, idx % 2 + 9000));
-    }));
+    }).isolated());
 
     // ---- (3) 16-bit lane / width sweep on the boundary alphabet, all entry points
     let mut pairs16: Vec<(u32, u32)> = vec![];
@@ -365,7 +365,7 @@ pub fn prop(tier: Tier, _seed: u64) -> Prop {
         }
         ctx.nontrivial += 1;
         ctx.class(mix(mix(d[0] as u64 + 50, d[3] as u64), mix((w % 16) as u64, (d[4] * 8 + off) as u64)));
-    }));
+    }).isolated());
 
     // ---- (4) floats
     let fa = float_alphabet();
@@ -410,7 +410,7 @@ pub fn prop(tier: Tier, _seed: u64) -> Prop {
         }
         ctx.nontrivial += 1;
         ctx.class(mix(mix(d[0] as u64 + 90, d[3] as u64), mix((w % 8) as u64, (d[4] * 8 + off) as u64)));
-    }));
+    }).isolated());
 
     // ---- (4b) uniform runs: a run of L identical special pixels at offset O inside filler pixels.
     //      Fast paths for "all opaque" / "all zero" / "all equal" vector chunks live here.
@@ -463,7 +463,7 @@ pub fn prop(tier: Tier, _seed: u64) -> Prop {
         ctx.ops += (w * h) as u64;
         ctx.nontrivial += rows.len() as u64;
         ctx.class(mix(mix(d[0] as u64 + 700, d[1] as u64), (d[2] * 2 + d[3]) as u64));
-    }));
+    }).isolated());
 
     // ---- (5) rejections
     let b7 = bes.clone();
@@ -508,7 +508,7 @@ pub fn prop(tier: Tier, _seed: u64) -> Prop {
         }
         ctx.class(mix(mix(d[0] as u64, d[1] as u64), (d[2] * 4 + d[3]) as u64 + 5000));
         ctx.outcome(mix(res.is_ok() as u64, fnv(dst.bytes())));
-    }));
+    }).isolated());
 
     p.rule = "8-bit: all 65536 (colour,alpha) pairs (three colour channels for U8x4) in 132 layouts (row widths 1..70; widths 64 and 67 at offsets 1..31 so each pair meets every lane residue of the vector loop, the remainder and the tail) x back-end x 4 entry points; 16-bit: each alpha of the tier's alpha set x all 65536 colours and each boundary colour x all 65536 alphas on every back-end, plus the 15^2 boundary pairs x widths 1..70 x offsets 0..7 x back-end x entry point; floats: 16^2 pairs x widths 1..40 x offsets x back-end x entry; 13x13 rejection matrix. Oracle: exact integer arithmetic".into();
     p.bounds = json!({"alphas_16bit": alphas.len(), "all_2^32_pairs": tier == Tier::Thorough, "boundary_colours_16bit": cols.len()});
